@@ -53,13 +53,28 @@ func c07Delete(c *Ctx, m *Module) {
 		if hasFact(facts, callResultIs("internal/upload.notNeeded", true, nil)) {
 			evidence = "notNeeded(week) is true (report already uploaded or ready)"
 		}
-		// (2) os.Stat(report name) err == nil
-		for _, st := range callsIn(fn, "os.Stat") {
-			if hasFact(facts, errNilOf(st.(*ssa.Call))) {
-				nm := describe(argsOf(st)[0])
-				if strings.Contains(nm, `".json"`) && strings.Contains(nm, "LocalDir(") {
-					evidence = "os.Stat(" + nm + ") succeeded: a report file for the week exists"
+		// (2) os.Stat(report name) err == nil — in every case that leads here
+		{
+			cases := factCases(facts)
+			okAll := len(cases) > 0
+			ev := ""
+			for _, cf := range cases {
+				found := false
+				for _, st := range callsIn(fn, "os.Stat") {
+					if hasFact(cf, errNilOf(st.(*ssa.Call))) {
+						nm := describe(argsOf(st)[0])
+						if strings.Contains(nm, `".json"`) && (strings.Contains(nm, "LocalDir(") || strings.Contains(nm, "UploadDir(")) {
+							found = true
+							ev = "os.Stat(" + nm + ") succeeded: a report file for the week exists"
+						}
+					}
 				}
+				if !found {
+					okAll = false
+				}
+			}
+			if okAll && ev != "" {
+				evidence = ev
 			}
 		}
 		// (3) both exclusive writes checked
